@@ -265,6 +265,9 @@ type World struct {
 	lastSeq map[string]int64 // rows already reported per doc (current epoch)
 	lastEp  map[string]int64
 	orig    map[string]*change.Change // original change objects by doc/actor/clientSeq/lamport
+	// Poisoned: requests are blocked forever on this world's server (deadlock);
+	// it must be abandoned, not closed gracefully.
+	Poisoned bool
 }
 
 var worldCtr int64
